@@ -55,10 +55,10 @@ fn h_mul<const M: u32>() {
     kani::cover!(a.inner() == M - 1 && b.inner() == M - 1);
 }
 
-fn coprime(mut a: u32, mut b: u32) -> bool {
-    // harness-side Euclid (concrete M, symbolic y)
+fn coprime<const K: usize>(mut a: u32, mut b: u32) -> bool {
+    // harness-side Euclid (concrete M, symbolic y); K >= the Euclid length for the operand range of the harness
     let mut k = 0;
-    while k < 48 {
+    while k < K {
         if b != 0 {
             let t = a % b;
             a = b;
@@ -66,15 +66,16 @@ fn coprime(mut a: u32, mut b: u32) -> bool {
         }
         k += 1;
     }
+    assert!(b == 0, "harness Euclid bound K is large enough");
     a == 1
 }
 
-fn h_inv<const M: u32>(all: bool) {
+fn h_inv<const M: u32, const K: usize>(all: bool) {
     let y = any_elem::<M>();
     if !all {
         kani::assume((y.inner() >= 1 && y.inner() <= 16) || y.inner() + 16 >= M);
     }
-    kani::assume(coprime(y.inner(), M));
+    kani::assume(coprime::<K>(y.inner(), M));
     let i = y.inv();
     assert!(i.inner() < M);
     assert!((y * i).inner() == 1 % M, "y * inv(y) = 1");
@@ -154,37 +155,37 @@ macro_rules! inv_all {
     ($m:expr, $name:ident, $unw:expr) => {
         #[kani::proof]
         #[kani::unwind($unw)]
-        fn $name() { h_inv::<$m>(true); }
+        fn $name() { h_inv::<$m, { $unw - 2 }>(true); }
     };
 }
 macro_rules! inv_win {
     ($m:expr, $name:ident, $unw:expr) => {
         #[kani::proof]
         #[kani::unwind($unw)]
-        fn $name() { h_inv::<$m>(false); }
+        fn $name() { h_inv::<$m, { $unw - 2 }>(false); }
     };
 }
-inv_all!(2, c06_inv_m2, 50);
-inv_all!(3, c06_inv_m3, 50);
-inv_all!(4, c06_inv_m4, 50);
-inv_all!(5, c06_inv_m5, 50);
-inv_all!(6, c06_inv_m6, 50);
-inv_all!(7, c06_inv_m7, 50);
-inv_all!(8, c06_inv_m8, 50);
-inv_all!(9, c06_inv_m9, 50);
-inv_all!(10, c06_inv_m10, 50);
-inv_all!(11, c06_inv_m11, 50);
-inv_all!(12, c06_inv_m12, 50);
-inv_all!(13, c06_inv_m13, 50);
-inv_all!(16, c06_inv_m16, 50);
-inv_all!(61, c06_inv_m61, 50);
-inv_all!(251, c06_inv_m251, 50);
-inv_all!(256, c06_inv_m256, 50);
-inv_win!(65537, c06_inv_m65537, 50);
-inv_win!(998244353, c06_inv_m998244353, 50);
-inv_win!(1000000007, c06_inv_m1000000007, 50);
-inv_win!(2147483646, c06_inv_m2147483646, 50);
-inv_win!(2147483647, c06_inv_m2147483647, 50);
+inv_all!(2, c06_inv_m2, 5);
+inv_all!(3, c06_inv_m3, 6);
+inv_all!(4, c06_inv_m4, 6);
+inv_all!(5, c06_inv_m5, 7);
+inv_all!(6, c06_inv_m6, 6);
+inv_all!(7, c06_inv_m7, 7);
+inv_all!(8, c06_inv_m8, 8);
+inv_all!(9, c06_inv_m9, 7);
+inv_all!(10, c06_inv_m10, 7);
+inv_all!(11, c06_inv_m11, 8);
+inv_all!(12, c06_inv_m12, 8);
+inv_all!(13, c06_inv_m13, 9);
+inv_all!(16, c06_inv_m16, 8);
+inv_all!(61, c06_inv_m61, 10);
+inv_all!(251, c06_inv_m251, 13);
+inv_all!(256, c06_inv_m256, 13);
+inv_win!(65537, c06_inv_m65537, 9);
+inv_win!(998244353, c06_inv_m998244353, 10);
+inv_win!(1000000007, c06_inv_m1000000007, 9);
+inv_win!(2147483646, c06_inv_m2147483646, 9);
+inv_win!(2147483647, c06_inv_m2147483647, 10);
 
 macro_rules! pow_small {
     ($m:expr, $name:ident) => {
